@@ -12,6 +12,7 @@ import (
 	"strconv"
 	"strings"
 
+	"oryxverif/checker/internal/abs"
 	"oryxverif/checker/internal/core"
 	"oryxverif/checker/internal/rules"
 )
@@ -23,7 +24,12 @@ func main() {
 	root := flag.String("root", "/verif", "verification root (evidence, reports, known findings)")
 	replay := flag.String("replay", "", "report file to re-derive")
 	list := flag.Bool("list", false, "list implemented properties")
+	absFn := flag.String("abs", "", "debug: abstractly interpret pkg:Func with symbolic arguments and print every path")
 	flag.Parse()
+	if *absFn != "" {
+		debugAbs(*repo, *absFn)
+		return
+	}
 	if *list {
 		fmt.Println(strings.Join(rules.IDs(), " "))
 		return
@@ -48,6 +54,47 @@ func main() {
 	}
 	abs, _ := filepath.Abs(*repo)
 	os.Exit(run(pr, *tier, abs, *root, only.Rule, only.Construct))
+}
+
+func debugAbs(repo, spec string) {
+	P, err := core.Load(core.Config{Dir: repo})
+	if err != nil {
+		fmt.Println(err)
+		os.Exit(2)
+	}
+	i := strings.Index(spec, ":")
+	fn := P.Func(spec[:i], spec[i+1:])
+	if fn == nil {
+		fmt.Println("no such function")
+		os.Exit(2)
+	}
+	e := abs.NewEngine(P)
+	res := e.Run(fn, func(p *abs.Path) []abs.Value { return e.AutoArgs(p, fn) })
+	for k, r := range res {
+		fmt.Printf("--- path %d forks=%v\n", k, r.Path.Forks)
+		if r.Path.Abort != "" {
+			fmt.Println("  ABORT:", r.Path.Abort)
+		}
+		if r.Path.Panics != "" {
+			fmt.Println("  PANIC:", r.Path.Panics)
+		}
+		for i, v := range r.Ret {
+			fmt.Printf("  ret[%d] = %s\n", i, abs.Describe(r.Path, v))
+		}
+		for name, o := range r.Path.Sinks {
+			if strings.HasPrefix(name, "sink:") {
+				fmt.Printf("  %s = %s\n", name, abs.SegsString(o.Segs))
+			}
+		}
+		for _, b := range r.Path.Bounds {
+			if !b.Proven {
+				fmt.Printf("  UNPROVEN %s %s\n", b.Pos, b.What)
+			}
+		}
+		for _, n := range r.Path.Notes {
+			fmt.Println("  note:", n)
+		}
+	}
 }
 
 func isFlagSet(name string) bool {
